@@ -10,8 +10,9 @@ request grammar. -/
 open Juno.Proto Juno.C18
 
 structure DrvState where
-  cfg : Cfg := Cfg.pinned
-  bcfg : BlockTx.Cfg := BlockTx.Cfg.pinned
+  -- the model is the current tree: there is no command that selects another variant
+  cfg : Cfg := Cfg.fixed
+  bcfg : BlockTx.Cfg := BlockTx.Cfg.fixed
   disk : Disk := ⟨none, fun _ => none⟩
   bt : BlockTx.Db := ⟨none, fun _ => ⟨none, [], [], none⟩⟩
   btN : Nat := 0
@@ -222,10 +223,6 @@ def showHRet : HS.Ret → String
 
 def step (s : DrvState) (line : String) : DrvState × String :=
   match words line with
-  | ["cfg", a, b, c, d] =>
-    match bool? a, bool? b, bool? c, bool? d with
-    | some a, some b, some c, some d => ({ s with cfg := ⟨a, b⟩, bcfg := ⟨c, d⟩ }, "ok")
-    | _, _, _, _ => (s, "bad-op")
   | ["sv.has", a, i] =>
     match hexSV? a, i.toNat? with
     | some a, some i => (s, toString (SV.has a i))
@@ -352,22 +349,22 @@ def step (s : DrvState) (line : String) : DrvState × String :=
     | some conc, some n, some sent, some d, some ws, some dc =>
       (s, toString (Pipe.valid conc ⟨n, sent, d, ws, dc⟩))
     | _, _, _, _, _, _ => (s, "bad-op")
-  | ["pr.cutoff", z, b, height, l1, ret, pruned, pin] =>
-    -- z, b: Pruner.Cfg flags; pin: `x` or the cutoff restored from a resume state
-    match bool? z, bool? b, height.toNat?, l1.toNat?, ret.toNat?, pruned.toNat?, optNat? pin with
-    | some z, some b, some height, some l1, some ret, some pruned, some pin =>
+  | ["pr.cutoff", height, l1, ret, pruned, pin] =>
+    -- pin: `x` or the cutoff restored from a resume state
+    match height.toNat?, l1.toNat?, ret.toNat?, pruned.toNat?, optNat? pin with
+    | some height, some l1, some ret, some pruned, some pin =>
       let i : Pruner.In := ⟨height, l1, ret, pruned, pin⟩
-      (s, match Pruner.cutoff ⟨z, b⟩ i with
+      (s, match Pruner.cutoff Pruner.Cfg.fixed i with
           | none => "none"
           | some c => s!"{c} {if Pruner.setupOk i c then "ok" else "fails"}")
-    | _, _, _, _, _, _, _ => (s, "bad-op")
-  | ["pr.finish", g, c, h, st, r, live, scratch] =>
+    | _, _, _, _, _ => (s, "bad-op")
+  | ["pr.finish", c, h, st, r, live, scratch] =>
     -- which kept blocks lose their history when a completed run resumes from token (st, r)
-    match bool? g, c.toNat?, h.toNat?, st.toNat?, r.toNat?, parseNats live, parseNats scratch with
-    | some g, some c, some h, some st, some r, some live, some scratch =>
-      (s, let l := Pruner.lost c h (Pruner.finish g c h (st, r) ⟨live, scratch⟩)
+    match c.toNat?, h.toNat?, st.toNat?, r.toNat?, parseNats live, parseNats scratch with
+    | some c, some h, some st, some r, some live, some scratch =>
+      (s, let l := Pruner.lost c h (Pruner.finish true c h (st, r) ⟨live, scratch⟩)
           showNats l)
-    | _, _, _, _, _, _, _ => (s, "bad-op")
+    | _, _, _, _, _, _ => (s, "bad-op")
   | ["bt.first"] =>
     match s.bt.height with
     | none => (s, "noheight")
